@@ -29,7 +29,7 @@ Print Assumptions c12_clone_starts_equal.
 
 (** Which contexts are subshells, as a function of pipefail / lastpipe / set -m. *)
 Theorem c12_stage_classification :
-  (forall o, is_subshell o CPipeFirst = true) /\
+  (forall o, is_subshell o CPipeFirst = true /\ is_subshell o CPipeMid = true) /\
   (forall o c, c <> CPipeLast -> is_subshell o c = true) /\
   (forall o c, o_jobctl o = true -> is_subshell o c = true) /\
   (forall o c, o_lastpipe o = false -> is_subshell o c = true) /\
@@ -75,6 +75,22 @@ Print Assumptions c12_isolation_ulimit_refuted.
 Theorem c12_exit_contained : forall o c body w, is_subshell o c = true -> snd (run_mut o (MSub c body) w) = Go.
 Proof. exact exit_contained. Qed.
 Print Assumptions c12_exit_contained.
+
+(** Background jobs (in-process tasks) and the step that collects them. *)
+Theorem c12_bg_preserves_cloned : forall o how body w f,
+  ~ In f known_shared -> flows_back f = false ->
+  cget f (fst (fst (run_mut o (MBg how body) w))) = cget f (fst w).
+Proof. exact bg_preserves_cloned. Qed.
+Print Assumptions c12_bg_preserves_cloned.
+
+Theorem c12_bg_collect_contained_outside_known : forall o how body w,
+  how <> CollFg -> snd (run_mut o (MBg how body) w) = Go.
+Proof. exact bg_collect_contained_outside_known. Qed.
+Print Assumptions c12_bg_collect_contained_outside_known.
+
+Theorem c12_bg_fg_refuted : exists o body w, snd (run_mut o (MBg CollFg body) w) = Exited.
+Proof. exact bg_fg_refuted. Qed.
+Print Assumptions c12_bg_fg_refuted.
 
 Theorem c12_call_absorbs_return : forall o body w, snd (run_mut o (MCall body) w) <> Returned.
 Proof. exact call_absorbs_return. Qed.
